@@ -342,7 +342,7 @@ def _pickle_array_annotation(x: type["AbstractArray"]):
     if x is AbstractArray:
         return _return_abstractarray, ()
     else:
-        return x.dtype.__getitem__, ((x.array_type, x.dim_str),)
+        return x.dtype.__getitem__, (x._pickle_args,)
 
 
 copyreg.pickle(_MetaAbstractArray, _pickle_array_annotation)
@@ -616,6 +616,10 @@ def _make_array(x, dim_str, dtype):
     out = _make_array_cached(x, dim_str, dtype.dtypes, dtype.__name__)
 
     if type(out) is tuple:
+        # What we were subscripted with, so that pickling can do the same again. (For
+        # a nested annotation `array_type` and `dim_str` below describe the flattened
+        # result, from which the dtypes of the inner annotation cannot be recovered.)
+        pickle_args = (x, dim_str)
         array_type, name, dtypes, dims, index_variadic, dim_str = out
 
         out = _MetaAbstractArray(
@@ -628,6 +632,7 @@ def _make_array(x, dim_str, dtype):
                 dtypes=dtypes,
                 dims=dims,
                 index_variadic=index_variadic,
+                _pickle_args=pickle_args,
             ),
         )
         if getattr(typing, "GENERATING_DOCUMENTATION", "") in {"", "jaxtyping"}:
